@@ -26,6 +26,10 @@ import numpy as np
 from pynndescent import distances as D
 from pynndescent import sparse as S
 from harness import refmetrics as R
+import numba
+# two worker threads: the only parallel kernel reached from here (sinkhorn's K_from_cost, a few dozen
+# entries) costs ~85 ms per call in barrier waits with 16 threads on a loaded machine, 0.02 ms with 2
+numba.set_num_threads(min(2, numba.get_num_threads()))
 
 MAX_PER_KEY = 2
 F32MAX = R.F32MAX
